@@ -58,6 +58,11 @@ pub fn case(ctx: &Ctx, idx: u64) -> CaseOut {
         out.count(&format!("feature.{}", f), 1);
     }
     out.count("segments", inst.trips.len() as u64);
+    if inst.trips.len() > 12 {
+        // size class of the larger instances: completed peers need up to ~40 CPU-s
+        crate::orch::announce_cpu_budget(600.0);
+        out.count("instances_gt_12_segments", 1);
+    }
 
     #[cfg(rssched_verif)]
     server::verif::start_recording();
